@@ -18,7 +18,7 @@ PROPS = ['C01_energy_conserved', 'C01_energy_conserved_numpy_fresnel', 'C01_ener
          'C01_energy_never_created_numpy_fresnel', 'C01_second_pass_energy', 'C01_mask_idempotent',
          'C01_phasor_unit', 'C01_masked_phasor_le', 'C01_mask_is_idempotent', 'C01_all_grid_frequencies_propagate',
          'C01_contracts_satisfiable']
-TOL = {'torch': 2e-4, 'numpy': 1e-9}
+TOL = {'torch': 1e-5, 'numpy': 1e-12}     # observed on 150 thorough configurations: 4.5e-7 (float32), 8e-16 (float64)
 
 
 def configs(ctx, n):
